@@ -572,7 +572,7 @@ def run_property(mod, tier: str) -> int:
             print(f"  signature={f.sig}")
             print(f"  {f.msg}")
         for h in harness_errors:
-            print("NOTE: a sub-check also ended in a harness error (inconclusive):", h.splitlines()[0])
+            print("NOTE: a sub-check also ended in a harness error (inconclusive):", " | ".join(h.splitlines()[:1] + h.splitlines()[-4:]))
         return 1
     if harness_errors:
         print("HARNESS-ERROR (inconclusive, not a violation):")
